@@ -160,6 +160,18 @@ CHECKS.append(
      "note": "Trusted: TLC, the harness table construction and projection, fixed-grid encoding of values. Premise: GenesContiguous, sorted disjoint bins, positive group weight, "
              "segment ends not cutting bins. Comma labels are judged on the per-gene clause only. By-segment min_probes is left free between the two readings. Sex is passed "
              "explicitly; diploid_parx_genome is not exercised."})
+CHECKS.append(
+    {"id": "C19", "level": "model_checking",
+     "technique": "TLA+ library of robust statistics in exact limb / 12-digit fixed-point arithmetic (Stats.tla) + content module StatsCheck.tla; TLC exhaustive small scopes replayed into cnvlib.descriptives/smoothing + TLC trace validation of seeded random calls and shift / +-2^k rescale call pairs",
+     "design_ref": "DESIGN.md section 8 C19, 13",
+     "text": "Stats.tla defines each estimator from its cited formula (weighted median by its half-weight characterisation plus the midpoint rule; biweight location with all "
+             "iterates and the set of admissible stopping rounds; midvariance with the MAD fallback; Qn as the docstring states it; Width2Wing, mirror padding, rolling median). "
+             "TLC enumerates all short value x weight vectors / integer signals x widths, checks the modelled code against the clauses (DesignOK), every enumerated state is "
+             "replayed into the real functions, and seeded inputs per the quantifier (length 1..400, ties, outlier, all-equal, NaN, dominant/zero/exact-half weights, widths "
+             "wider than the signal) are judged by the same clauses; translation and rescaling are judged on recorded pairs of real calls.",
+     "note": "Trusted: TLC; the grid decoding k/1024 -> float; the fixed-point encoding of inputs and results. Inputs on a dyadic grid with |x| <= 40; formula agreement for "
+             "biweights and Qn at n <= 60. Not claimed: Kaiser/Savitzky-Golay coefficients, mode formula. Weighted S-G with positive weights only; weighted estimators rescaled "
+             "by positive factors only. The mode's translation clause admits the mirror image on mirror-symmetric data. MC runs without -coverage."})
 
 _ALL = [f"C{n:02d}" for n in range(1, 21)]
 _claimed = {c["id"] for c in CHECKS}
